@@ -70,7 +70,7 @@ func genC11Cfg(t *rapid.T) Cfg {
 	case 5:
 		c.Dir = strp(rapid.SampledFrom([]string{"./dotted/../dotted", "50%_done/snaps", "My%20Project"}).Draw(t, "oddDir"))
 	}
-	c.Filename = rapid.SampledFrom([]string{"", "", "custom", "my.file", "with%percent", "ünï", "%d", "a b"}).Draw(t, "filename")
+	c.Filename = rapid.SampledFrom([]string{"", "", "custom", "my.file", "with%percent", "ünï", "%d", "a b", "golden/user", "nested/deeper/name"}).Draw(t, "filename")
 	c.Ext = rapid.SampledFrom([]string{"", "", ".txt", ".json", ".snap", ".%s"}).Draw(t, "ext")
 	return c
 }
